@@ -13,6 +13,13 @@ the property) to the working tree:
   the implementation's own certificate (`spec.petri.certificate`, the hypothesis of the proved
   `certificate_check_sound`), and the verdict against an exhaustive reachability search written here.
 
+Shape of the expected family (structure): besides sparse random networks (whose minimal siphons / traps are nearly always a few
+sets of one size) the families are PLANTED - an antichain of a chosen shape (mixed sizes, small members touching every species
+plus a larger member, gaps in the sizes, nothing below size n-1, a whole layer of k-subsets) is turned into a network whose
+minimal siphons (traps) are exactly that antichain - so that the subset search itself (size order, pruning, early exits, caps) is
+exercised; dense networks in which every species is produced; 4-species networks one step beyond the exhaustive stream; the same
+numbers in several Python types with unselected library-default attributes next to them (`numeric_build`).
+
 Three history streams reuse ONE object across many calls (hidden state between calls): all public
 methods of `PathwayRealizability` in random order, interleaved construction / queries on `PetriNet`
 objects, and `PetriAnalyzer` objects kept across in-place edits of their network.  The model side is
@@ -328,6 +335,8 @@ def impl_structure(case):
 
     if case.get("nx"):
         crn = nx_build(case)[0]
+    elif case.get("numeric"):
+        crn = numeric_build(case)[0]
     elif case.get("raw"):
         crn = to_bipartite_variant(case["desc"], case.get("render"))
     else:
@@ -339,6 +348,8 @@ def impl_structure(case):
 def net_json(case):
     if case.get("nx"):
         return netio.to_net_json_raw(nx_build(case)[1])
+    if case.get("numeric"):
+        return netio.to_net_json_raw(numeric_build(case)[1])
     return netio.to_net_json_raw(case["desc"]) if case.get("raw") else netio.to_net_json(case["desc"])
 
 
@@ -378,6 +389,7 @@ def shrink_structure(ctx, case):
         return bool(cand) and structure_fails(ctx, dict(case, desc=dict(case["desc"], reactions=cand)))
     small = shrink_seq(rs, fails, budget=120)
     out = dict(case, desc=dict(case["desc"], reactions=small))
+    out.pop("plant", None)  # the reduced network is no longer the planted one
     # lower coefficients
     for r in out["desc"]["reactions"]:
         for side in ("r", "p"):
@@ -420,6 +432,7 @@ def run_structure(ctx, cases, tag, spec_all=False, max_new=5):
                     return bool(cand) and type(e2).__name__ == kind
                 return False
             small = dict(case, desc=dict(case["desc"], reactions=shrink_seq(case["desc"]["reactions"], raises, budget=60)))
+            small.pop("plant", None)
             ctx.count(f"structure[{tag}]")
             ctx.case(["structure", case], False)
             ctx.violation("find_siphons / find_traps raise on a well-formed network (CRNHyperGraph or documented bipartite graph): no siphons / traps are reported",
@@ -437,6 +450,32 @@ def run_structure(ctx, cases, tag, spec_all=False, max_new=5):
         ctx.count("structure:max_size=" + ("None" if case.get("max_size") is None else "given"))
         if case.get("nx"):
             count_nx(ctx, case, nx_build(case)[2])
+        for key in ("siphons", "traps"):  # shape of the expected family (what a subset search has to get through)
+            szs = sorted({len(S) for S in model[key]})
+            ctx.count(f"structure:{key}:distinct sizes in the family={min(len(szs), 3)}{'+' if len(szs) >= 3 else ''}")
+            if len(szs) >= 2 and any(set().union(*[S for S in model[key] if len(S) <= k]) >= set(net_json(case)["species"]) for k in szs[:-1]):
+                ctx.count(f"structure:{key}:smaller members touch every species, a larger member exists")
+            if szs and szs[0] >= 3:
+                ctx.count(f"structure:{key}:no member below size 3")
+            if szs and szs[-1] == n_sp and n_sp >= 3:
+                ctx.count(f"structure:{key}:the set of all species is a member")
+            if len(model[key]) >= 8:
+                ctx.count(f"structure:{key}:8 or more members")
+        if case.get("plant"):
+            pl = case["plant"]
+            ctx.count(f"plant:shape={pl['shape']}:{pl['kind']}")
+            ctx.count(f"plant:via={case.get('via')}")
+            ctx.count(f"plant:coefficients={pl['coeff']}")
+            ctx.count("plant:reactions=" + ("<=6" if len(case["desc"]["reactions"]) <= 6 else "7-15" if len(case["desc"]["reactions"]) <= 15 else "16+"))
+            same_names = net_json(case)["species"] == netio.to_net_json_raw(case["desc"])["species"]
+            if pl["exact"] and case.get("max_size") is None and same_names:
+                ctx.count("plant:exact plant compared with the model")
+                if fam(model["siphons" if pl["kind"] == "siphon" else "traps"]) != fam(pl["family"]):
+                    ctx.violation("generator: the model's family differs from the planted antichain (planting construction or model fault, "
+                                  "not the property)", case, {"model": model, "plant": pl, "stream": tag}, no_input=True)
+                    return
+        if case.get("numeric"):
+            ctx.count("numeric:cls=" + str(case["numeric"].get("cls")))
         nontrivial = bool(model["siphons"] or model["traps"]) and len(case["desc"]["reactions"]) >= 2
         ctx.case(["structure", case], nontrivial,
                  sample={"stream": tag, "net": netio.fmt(case["desc"]), "max_size": case.get("max_size"),
@@ -480,7 +519,7 @@ def analyzer_consistent(ctx, case, how="siphons_traps"):
     `summary` record after `compute_all`); built on a CRNHyperGraph or on the plain NetworkX graph of the case."""
     from synkit.CRN.Petri import PetriAnalyzer
 
-    H = nx_build(case)[0] if case.get("nx") else netio.to_hypergraph(case["desc"])
+    H = nx_build(case)[0] if case.get("nx") else numeric_build(case)[0] if case.get("numeric") else netio.to_hypergraph(case["desc"])
     an = PetriAnalyzer(H, max_siphon_size=case.get("max_size"))
     got = None
     if how == "summary":
@@ -499,7 +538,7 @@ def analyzer_consistent(ctx, case, how="siphons_traps"):
         got = {"siphons": fam(an.siphons), "traps": fam(an.traps)}
     want = impl_structure(case)
     ctx.count("structure:analyzer_checked")
-    ctx.count("structure:analyzer_checked:" + ("networkx" if case.get("nx") else "hypergraph"))
+    ctx.count("structure:analyzer_checked:" + ("networkx" if case.get("nx") or case.get("numeric") else "hypergraph"))
     if got != want:
         ctx.violation("PetriAnalyzer reports other siphons/traps than find_siphons/find_traps", dict(case, analyzer=how),
                       {"analyzer": got, "functions": want, "how": how})
@@ -615,6 +654,244 @@ def random_desc(rnd, max_species=6, max_rxn=6, cmax=3):
         rs = with_ids(rs)
     iso = ["Z"] if rnd.random() < 0.1 else []
     return {"reactions": rs, "isolated": iso}
+
+
+# --------------------------------------------------------------- networks with a PLANTED family of minimal siphons / traps
+# Random sparse networks almost always have minimal siphons / traps of one size only (a few singletons or pairs), so the shape of
+# the subset search behind `find_siphons` / `find_traps` (order of sizes, pruning, early exits, caps) is hardly exercised by them.
+# Here the FAMILY is chosen first - an antichain F of species sets in one of the shapes below - and a network is built whose closed
+# sets are exactly the unions of members of F, so that its inclusion-minimal closed sets are exactly F:
+#   for a species p and the members F_1..F_m of F containing p:   p in S  =>  some F_i \ {p} is inside S
+#   <=> (distributivity) for every choice c of one element c_i of each F_i \ {p}:   p in S  =>  S meets {c_1..c_m}
+#   = one reaction  c_1 + .. + c_m >> p  per choice (siphon condition: a reaction producing a member consumes a member);
+#   a species in no member of F gets the source  >> p  (it is in no siphon); for traps every reaction is reversed.
+# The expected answer is still the Lean model's (never the plant); an exact plant is additionally compared with the model
+# (a difference there is a generator / model fault and reported as such, not as a property violation).
+PLANT_SHAPES = ["random", "cover+larger", "star", "layer", "staircase", "only-large", "gap"]
+SPECIES_POOL = list("ABCDEFGH")
+BIG_COEFFS = [10, 12, 25, 50, 100, 2500]
+
+
+def antichain(sets):
+    sets = {frozenset(s) for s in sets if s}
+    return sorted((S for S in sets if not any(T < S for T in sets)), key=sorted)
+
+
+def plant_family(rnd, sp, shape):
+    """An antichain of non-empty subsets of `sp`:
+    random        2-6 sets of mixed sizes
+    cover+larger  sets of one small size k that jointly touch every species + 1-2 sets of size > k containing none of them
+    star          {c, x} for every other species x + the set of all species but c
+    layer         half or more of the k-subsets for one k (many minimal sets of one size; k = n: the full set only)
+    staircase     disjoint sets of sizes 1, 2, 3, ..
+    only-large    nothing below size n-1 (the search finds nothing until the very end)
+    gap           a singleton and sets of size >= 3: no minimal set of size 2"""
+    n = len(sp)
+    sh = list(sp)
+    rnd.shuffle(sh)
+    if shape == "cover+larger":
+        k = rnd.randint(1, max(1, min(3, n - 2)))
+        small, left = [], list(sh)
+        while left:
+            S, left = set(left[:k]), left[k:]
+            while len(S) < k:
+                S.add(rnd.choice(sp))
+            small.append(S)
+        for _ in range(rnd.randint(0, 2)):
+            small.append(set(rnd.sample(sp, k)))
+        sets = list(small)
+        for _ in range(rnd.randint(1, 2)):
+            for _try in range(20):
+                L = set(rnd.sample(sp, rnd.randint(k + 1, n)))
+                if not any(S <= L for S in small):
+                    sets.append(L)
+                    break
+    elif shape == "star":
+        sets = [{sh[0], x} for x in sh[1:]] + [set(sh[1:])]
+    elif shape == "layer":
+        k = rnd.randint(1, n)
+        allk = [set(c) for c in itertools.combinations(sp, k)]
+        rnd.shuffle(allk)
+        sets = allk[: rnd.randint(max(1, len(allk) // 2), len(allk))]
+    elif shape == "staircase":
+        sets, i, k = [], 0, 1
+        while i < n:
+            sets.append(set(sh[i:i + k]))
+            i, k = i + k, k + 1
+    elif shape == "only-large":
+        k = rnd.choice([n, n, n - 1])
+        sets = [set(rnd.sample(sp, k)) for _ in range(1 if k == n else rnd.randint(1, 3))]
+    elif shape == "gap":
+        sets = [{sh[0]}] + [set(rnd.sample(sh[1:], rnd.randint(min(3, n - 1), n - 1))) for _ in range(rnd.randint(1, 2))]
+    else:
+        sets = [rnd.sample(sp, max(1, min(n, rnd.choice([1, 2, 2, 2, 3, 3, 4, n - 1, n])))) for _ in range(rnd.randint(2, 6))]
+    return antichain(sets)
+
+
+def plant_clauses(rnd, sp, F, cap=24):
+    """-> (clauses [(reactant set, product)], exact).  `exact` is False when a species had more than `cap` choice functions
+    and only a sample of them was written down (the closed sets are then a superset of the unions of F)."""
+    clauses, exact = [], True
+    for p in sp:
+        Fs = [S - {p} for S in F if p in S]
+        if not Fs:
+            clauses.append((frozenset(), p))
+            continue
+        if any(not S for S in Fs):
+            continue  # {p} itself is a member: p is unconstrained
+        prod = 1
+        for S in Fs:
+            prod *= len(S)
+        if prod <= cap:
+            ch = {frozenset(c) for c in itertools.product(*[sorted(S) for S in Fs])}
+        else:
+            ch = {frozenset(rnd.choice(sorted(S)) for S in Fs) for _ in range(cap)}
+            exact = False
+        for c in sorted((c for c in ch if not any(d < c for d in ch)), key=sorted):  # a superset clause is implied
+            clauses.append((c, p))
+    return clauses, exact
+
+
+def planted_desc(rnd, n=None, shape=None, kind=None):
+    """-> (description, plant record)."""
+    n = n or rnd.choice([4, 4, 5, 5, 6, 6, 7])
+    sp = SPECIES_POOL[:n]
+    shape = shape or rnd.choice(PLANT_SHAPES)
+    kind = kind or rnd.choice(["siphon", "trap"])
+    F = plant_family(rnd, sp, shape)
+    clauses, exact = plant_clauses(rnd, sp, F)
+    by = {}
+    for R, p in clauses:
+        by.setdefault(R, []).append(p)
+    rs = []
+    for R, ps in by.items():  # clauses with one reactant set: one reaction with several products, or one reaction each
+        if len(ps) > 1 and rnd.random() < 0.5:
+            rs.append((sorted(R), list(ps)))
+        else:
+            rs.extend((sorted(R), [p]) for p in ps)
+    if rs and rnd.random() < 0.15:  # the same reaction twice under two ids
+        rs.append(rnd.choice(rs))
+    if not rs or rnd.random() < 0.15:  # an unrelated reaction on top: the plant is no longer the answer
+        a = rnd.sample(sp, 2)
+        rs.append(([a[0]], [a[1]]))
+        exact = False
+    rnd.shuffle(rs)
+    coeff = rnd.choice(["unit", "unit", "small", "big"])
+
+    def c():
+        return 1 if coeff == "unit" else rnd.randint(1, 3) if coeff == "small" else rnd.choice([1, 2] + BIG_COEFFS)
+    ids = rnd.choice(["r_", "r_", "x", "R"])
+    out = []
+    for i, (R, P) in enumerate(rs):
+        r, p = [[s, c()] for s in R], [[s, c()] for s in P]
+        if kind == "trap":
+            r, p = p, r
+        out.append({"id": f"{ids}{i + 1}" if ids != "x" else f"x{len(rs) + 9 - i}", "rule": rnd.choice(["r", "R1", None]), "r": r, "p": p})
+    used = {s for R, P in rs for s in R + P}
+    return ({"reactions": out, "isolated": [s for s in sp if s not in used]},  # unconstrained singletons of F
+            {"shape": shape, "kind": kind, "family": sorted(sorted(S) for S in F), "exact": exact, "coeff": coeff})
+
+
+def planted_case(rnd, i):
+    """A planted network handed over as CRNHyperGraph (half of the cases) or as a hand-built / exported bipartite graph in
+    the renderings of the other structure streams; max_size mostly None, else around the sizes present in the family."""
+    desc, plant = planted_desc(rnd, shape=PLANT_SHAPES[i % len(PLANT_SHAPES)])
+    n = len(netio.to_net_json(desc)["species"])
+    sizes = sorted({len(S) for S in plant["family"]})
+    ms = None if rnd.random() < 0.7 else rnd.choice(sizes + [sizes[-1] - 1, sizes[-1] + 1, n, n + 1, 0])
+    case = {"stream": "structure", "desc": desc, "max_size": None if ms is None else max(0, ms), "plant": plant}
+    via = rnd.choice(["hypergraph", "hypergraph", "hypergraph", "raw", "render", "nx-hand", "nx-export", "nx-numeric"])
+    if via == "raw":
+        case["raw"] = True
+    elif via == "render":
+        case.update(raw=True, render=rnd.choice(["int-ids", "no-label"]))
+    elif via in ("nx-hand", "nx-export"):
+        spec = random_nx_spec(rnd, via[3:], rnd.choice(["DiGraph", "MultiDiGraph", "MultiGraph", "Graph"]))
+        case.update(raw=True, nx=spec)  # planted reactions never have a species on both sides: fine for nx.Graph too
+    elif via == "nx-numeric":
+        case.update(raw=True, numeric={"cls": rnd.choice(NX_CLASSES), "rseed": rnd.randrange(1 << 30)})
+    case["via"] = via
+    return case
+
+
+def dense_desc(rnd, n=None):
+    """Every species is produced (or, reversed, consumed) by 1-3 reactions with 1-3 other species on the other side:
+    no trivial singleton siphons (traps), families of mixed sizes."""
+    sp = SPECIES_POOL[: n or rnd.choice([4, 5, 5, 6, 6, 7])]
+    rs = []
+    for p in sp:
+        others = [s for s in sp if s != p]
+        for _ in range(rnd.choice([1, 1, 2, 2, 3])):
+            rs.append((rnd.sample(others, rnd.randint(1, min(3, len(others)))), [p]))
+    rnd.shuffle(rs)
+    rev = rnd.random() < 0.5
+    big = rnd.random() < 0.2
+    out = []
+    for i, (R, P) in enumerate(rs):
+        r = [[s, rnd.choice(BIG_COEFFS) if big and rnd.random() < 0.5 else 1] for s in R]
+        p = [[s, rnd.choice(BIG_COEFFS) if big and rnd.random() < 0.5 else 1] for s in P]
+        out.append({"id": f"r_{i + 1}", "rule": "r", "r": p if rev else r, "p": r if rev else p})
+    return {"reactions": out, "isolated": []}
+
+
+def clause_reactions(species):
+    """Reactions R >> p with a non-empty R not containing p (4 species: 28)."""
+    return [{"r": [[s, 1] for s in R], "p": [[p, 1]]} for p in species
+            for k in range(1, len(species)) for R in itertools.combinations([s for s in species if s != p], k)]
+
+
+# --------------------------------------------------------------- one network, numbers written in several Python types
+# The arcs of a hand-built bipartite graph carry `stoich` as int, float, numpy.int32 / int64 / float64 - mixed within one
+# graph - and library-default attribute names the code does not select (`weight`, `label`, `id`, `name`, `capacity`)
+# with values that would change the answer if they were read instead of `stoich` / `role`; node ids 0 / 1 (falsy / truthy ints) and
+# int species labels (reported as str).  All of these are EQUAL (==) to the plain int, so the network - and the Lean request - is the
+# same.  bool is never used (the model keeps it apart).
+def numeric_build(case):
+    """-> (graph, effective description)."""
+    import random as _random
+
+    import numpy as np
+
+    spec = case["numeric"]
+    r0 = _random.Random(spec.get("rseed", 0))
+    net = netio.to_net_json_raw(case["desc"])
+    G = nx_class(spec.get("cls", "DiGraph"))()
+    directed = G.is_directed()
+    as_num = [int, float, np.int64, np.float64, np.int32]
+    int_ids = r0.random() < 0.5
+    sid = {s: (i if int_ids else "S:" + s) for i, s in enumerate(net["species"])}  # node id 0 is a species when int_ids
+    rid = {r["id"]: (len(net["species"]) + i if int_ids else "R:" + r["id"]) for i, r in enumerate(net["reactions"])}
+    int_labels = r0.random() < 0.3
+    shown = {s: (str(10 * i) if int_labels else s) for i, s in enumerate(net["species"])}
+    for s in net["species"]:
+        a = {"kind": "species", "label": 10 * net["species"].index(s) if int_labels else s}
+        if r0.random() < 0.5:
+            a["bipartite"] = r0.choice([0, 0.0, np.int64(0)])
+        if r0.random() < 0.3:
+            a[r0.choice(["weight", "name", "id", "capacity"])] = r0.choice([0, 1, "", "reaction", None])
+        G.add_node(sid[s], **a)
+    for r in net["reactions"]:
+        a = {"kind": "reaction", "label": r["rule"]}
+        if r0.random() < 0.5:
+            a["bipartite"] = r0.choice([1, 1.0, np.int64(1)])
+        G.add_node(rid[r["id"]], **a)
+    n_arcs = 0
+    for r in net["reactions"]:
+        for side, role in (("r", "reactant"), ("p", "product")):
+            for s, c in r[side]:
+                d = {"role": role, "stoich": r0.choice(as_num)(int(c))}
+                for k in ("weight", "label", "id", "name", "capacity"):
+                    if r0.random() < 0.25:
+                        d[k] = r0.choice([0, 0.0, -1, "reactant", "product", "", None, 7])
+                u, v = (sid[s], rid[r["id"]]) if role == "reactant" else (rid[r["id"]], sid[s])
+                if not directed and r0.random() < 0.5:
+                    u, v = v, u
+                G.add_edge(u, v, **d)
+                n_arcs += 1
+    if G.number_of_edges() != n_arcs:
+        raise AssertionError("harness: arcs collapsed while rendering " + json.dumps(case))
+    eff = [dict(r, r=[[shown[s], c] for s, c in r["r"]], p=[[shown[s], c] for s, c in r["p"]]) for r in net["reactions"]]
+    return G, {"reactions": eff, "isolated": [shown[s] for s in net["species"]]}
 
 
 # =============================================================== firing rule
@@ -1832,6 +2109,8 @@ def desc_of_hypergraph(H):
 def random_analyzer_history(rnd):
     raw = rnd.random() < 0.3
     desc = random_desc(rnd, max_species=5, max_rxn=4)
+    if rnd.random() < 0.25:  # start from a network with a planted family of mixed sizes (see PLANT_SHAPES)
+        desc = planted_desc(rnd, n=rnd.choice([4, 5]))[0]
     if raw:
         desc["isolated"] = []
     sp = sorted({s for r in desc["reactions"] for s, _ in r["r"] + r["p"]}) + ["F"]
@@ -2086,6 +2365,10 @@ def run(ctx):
         "next to kind), every arc carries role; a missing stoich is coefficient 1; a species without label is reported as str(node id); "
         "the direction an arc is written in carries no meaning (role does); the expected families are the Lean model's on the network so "
         "described (species renamed to the reported labels) - the rendering code nx_build is trusted, the code under test is not consulted",
+        "numeric-types stream: a stoich written as int, float or a numpy integer / float of the same value is the same coefficient; arc / node "
+        "attributes other than kind, bipartite, label, role, stoich carry no meaning; a non-string species label is reported as str(label)",
+        "planted families: the construction (one reaction per choice function) is not trusted - the expected family is the Lean model's, and an "
+        "exact plant that differs from the model is reported as a generator / model fault (no_input), never as a property violation",
         "an exception raised by find_siphons / find_traps on such a well-formed network is reported as a violation (no family is reported "
         "although C20 fixes it); on inputs that are no species/reaction graph (degenerate stream) a rejection is recorded, not gated",
         "run_realizability_from_rxn_strings: reactions are numbered r_1.. in the order given and parsed into the sides written (C15 / parser "
@@ -2130,7 +2413,23 @@ def run(ctx):
         "bipartite markers reuse 0/1 with the other meaning ((1,2),(1,1) | (1,0),(2,0)), one reported input per group, class "
         "nonstandard-bipartite-markers. REALIZABILITY, other entry points: 120 (quick) pathways through hypergraph_to_pr_inputs(H) without a "
         "flow (all-ones flow) and through run_realizability_from_rxn_strings (three spellings of the reaction strings, list or iterator, flow "
-        "None or given for every edge, verbose on/off, default bounds 100000/10000).")
+        "None or given for every edge, verbose on/off, default bounds 100000/10000). "
+        "PLANTED FAMILIES (counters plant:*, structure:siphons:* / structure:traps:*): 420 (quick) / 4200 networks over 4-7 species whose "
+        "minimal siphons (or, reversed, traps) are a chosen antichain, 1/7 each of the shapes random (2-6 sets of mixed sizes), "
+        "cover+larger (sets of one size k touching every species + 1-2 larger sets containing none of them), star ({c,x} for all x + "
+        "the rest), layer (half or more of the k-subsets), staircase (disjoint sets of sizes 1,2,3..), only-large (nothing below size "
+        "n-1), gap (a singleton and sets of size >=3); one reaction per choice function (<=24 per species, else sampled), clauses with "
+        "one reactant set merged into a multi-product reaction or not, 15% a duplicated reaction, 15% an unrelated reaction, "
+        "coefficients unit / 1..3 / from {1,2,10,12,25,50,100,2500}, max_size None (70%) or around the sizes of the family; handed over as "
+        "CRNHyperGraph (3/8) or as raw / re-rendered / hand-built / exported / numeric-typed NetworkX graph (1/8 each); every 7th also "
+        "through PetriAnalyzer; a quarter of the ANALYZER-HISTORY networks start from such a network (4-5 species). DENSE: 250 / 2500 "
+        "networks over 4-7 species where every species is produced (or, reversed, consumed) by 1-3 reactions with 1-3 other species. "
+        "FOUR SPECIES: reactions R >> p over {A,B,C,D} (R non-empty, p not in R: 28) - quick 300 random 4-sets in a random orientation, "
+        "thorough ALL sets of <=4 of them and all sets of their reverses. NUMERIC TYPES: 160 / 1600 hand-built graphs (all four classes), "
+        "half planted, half random with coefficients up to 3 / 12 / 2500, stoich written as int / float / numpy.int32 / int64 / float64 "
+        "mixed within one graph, unselected arc attributes weight / label / id / name / capacity with misleading values, node "
+        "attributes weight / name / id / capacity, bipartite flag as 0 / 0.0 / numpy.int64(0) next to kind, integer node ids from 0, "
+        "integer species labels (reported as str).")
     ctx.nontrivial_rule = ("structure: >=2 reactions and at least one siphon or trap; firing: some query enabled; "
                            "realizability: total flow >=2 on >=2 reactions; pr-history: >=2 judged is_realizable answers; net-history: some "
                            "query enabled; analyzer-history: >=2 judged families and >=1 edit; distinct as JSON values")
@@ -2228,6 +2527,57 @@ def run(ctx):
         for i, c in enumerate(rc[60: 90 if ctx.quick else 400]):
             analyzer_consistent(ctx, c, how="summary")
         run_structure_degenerate(ctx, degenerate_cases(rnd), "degenerate")
+    if not ctx.violations:
+        # families of every shape (see PLANT_SHAPES): the subset search has to get through mixed sizes, covers, gaps, late hits
+        pc = [planted_case(rnd, i) for i in range(420 if ctx.quick else 4200)]
+        run_structure(ctx, pc, "planted-family", spec_all=True)
+        for i, c in enumerate(pc[:: 7 if ctx.quick else 14]):
+            if not ctx.violations:
+                analyzer_consistent(ctx, {k: v for k, v in c.items() if k not in ("plant", "via")}, how="summary" if i % 2 else "siphons_traps")
+    if not ctx.violations:
+        dc = []
+        for _ in range(250 if ctx.quick else 2500):
+            desc = dense_desc(rnd)
+            dc.append({"stream": "structure", "desc": desc, "max_size": rnd.choice([None, None, None, 2, 3, len(desc["reactions"])])})
+        run_structure(ctx, dc, "dense-every-species-produced", spec_all=True)
+    if not ctx.violations:
+        # one species more than the exhaustive stream: {A,B,C,D}, reactions R >> p (R non-empty, p not in R; 28 of them) and their
+        # reverses; thorough: ALL sets of <= 4 such reactions in both orientations, quick: a sample of the 4-sets
+        cl = clause_reactions(["A", "B", "C", "D"])
+        combos = []
+        if ctx.quick:
+            combos = [sorted(rnd.sample(range(len(cl)), 4)) for _ in range(300)]
+        else:
+            for k in range(1, 5):
+                combos.extend(itertools.combinations(range(len(cl)), k))
+        four = []
+        for j, combo in enumerate(combos):
+            for rev in ((rnd.random() < 0.5,) if ctx.quick else (False, True)):
+                rs = [dict(r=cl[i]["p"], p=cl[i]["r"]) if rev else cl[i] for i in combo]
+                four.append({"stream": "structure", "desc": {"reactions": with_ids(rs)}, "max_size": None})
+        run_structure(ctx, four, "four-species-clause-reactions")
+        if not ctx.quick:
+            ctx.extra["exhaustive_part"] += (f"; all sets of <= 4 distinct reactions R >> p (and all sets of their reverses) over 4 species "
+                                             f"({len(cl)} reactions, {len(four)} networks)")
+    if not ctx.violations:
+        # equal numbers in several Python types, unselected library-default attributes, falsy ids (see `numeric_build`)
+        nc = []
+        for i in range(160 if ctx.quick else 1600):
+            if i % 2:
+                desc, plant = planted_desc(rnd)
+                c = {"stream": "structure", "desc": desc, "max_size": None, "plant": plant, "via": "nx-numeric"}
+            else:
+                desc = random_desc(rnd, max_species=5, max_rxn=4, cmax=rnd.choice([3, 3, 12, 2500]))
+                c = {"stream": "structure", "desc": desc, "max_size": rnd.choice([None, None, 1, 2, 3])}
+            cls = NX_CLASSES[(i // 2) % 4]
+            if cls == "Graph":
+                c["desc"] = strip_catalysts(c["desc"])
+            c.update(raw=True, numeric={"cls": cls, "rseed": rnd.randrange(1 << 30)})
+            nc.append(c)
+        run_structure(ctx, nc, "networkx-numeric-types", spec_all=True)
+        for i, c in enumerate(nc[::8]):
+            if not ctx.violations:
+                analyzer_consistent(ctx, {k: v for k, v in c.items() if k not in ("plant", "via")}, how="summary" if i % 2 else "siphons_traps")
     ctx.obligation("correspondence: find_siphons / find_traps / PetriAnalyzer == model, families as sets of label sets",
                    not ctx.violations)
 
